@@ -333,16 +333,19 @@ where
     let fl = tb.upstream::<L>(vc.prev_blocks[0], left.len() as u64);
     let fr = tb.upstream::<R>(vc.prev_blocks[1], right.len() as u64);
     tb.setup(&mut chain, BatchMode::fixed(1024));
-    // round-robin over the replicas of a side, so that their batches interleave in the channel
+    // the batches of the replicas of one side share one channel: their interleaving is a (free)
+    // driver choice, so every arrival order of the replicas' batches is enumerated
     fn feed<T: renoir::operator::ExchangeData>(f: &[testkit::Feeder<T>], batches: Vec<Vec<Vec<El<T>>>>) {
-        let mx = batches.iter().map(|b| b.len()).max().unwrap_or(0);
-        let mut its: Vec<std::vec::IntoIter<Vec<El<T>>>> = batches.into_iter().map(|b| b.into_iter()).collect();
-        for _ in 0..mx {
-            for (r, it) in its.iter_mut().enumerate() {
-                if let Some(b) = it.next() {
-                    f[r].send(b);
-                }
+        let mut its: Vec<std::collections::VecDeque<Vec<El<T>>>> = batches.into_iter().map(|b| b.into_iter().collect()).collect();
+        loop {
+            let live: Vec<usize> = (0..its.len()).filter(|i| !its[*i].is_empty()).collect();
+            if live.is_empty() {
+                break;
             }
+            let pick = if live.len() == 1 { 0 } else { crate::rt::driver_choose(live.len()) };
+            let r = live[pick];
+            let b = its[r].pop_front().unwrap();
+            f[r].send(b);
         }
     }
     feed(&fl, left);
